@@ -1,21 +1,21 @@
----- MODULE MC_C01_quick_c_poly_const ----
+---- MODULE MC_C03_quick_c_of_products ----
 EXTENDS CircuitSys
-c_Dom == <<3, 2>>
-c_KSet == {1, 2}
+c_Dom == <<2, 2>>
+c_KSet == {2}
 c_MaxK == 8
 c_MaxL == 4
 c_MaxIn == 2
-c_InKindSeq == <<"poly", "const", "clog">>
+c_InKindSeq == <<"emb", "catp">>
 c_InnerKinds == {"had", "kron", "sum"}
 c_MaxAr == 2
 c_FreeOrder == FALSE
 c_MaxOuts == 2
 c_MaxBases == 1
-c_MaxOps == 0
-c_OpSet == {}
-c_Scheme == 2
-c_OnlySD == FALSE
-c_PolyDeg == 2
+c_MaxOps == 2
+c_OpSet == {"evidence", "integrate", "multiply"}
+c_Scheme == 1
+c_OnlySD == TRUE
+c_PolyDeg == 1
 c_DiffK == {1}
 c_MaxDeg == 2
 c_Invalid == FALSE
@@ -25,8 +25,8 @@ c_NVer == 2
 c_GradMod == 0
 c_QueryOn == FALSE
 c_J == 1
-c_EmitOps == {0}
-c_EmitMod == 30
+c_EmitOps == {2}
+c_EmitMod == 100
 c_EmitRes == 0
-c_EmitSmall == 3
+c_EmitSmall == 2
 ====
